@@ -24,7 +24,7 @@ def structured(rng, f):
     """one well-typed malformation; returns (files, description)"""
     f = copy.deepcopy(f)
     mods = list(all_mods(f)); ctxs = list(all_ctxs(f))
-    k = rng.randrange(26)
+    k = rng.randrange(29)
     bad = rng.choice(BAD_STRINGS)
     if k == 0 and ctxs:
         a, b = rng.sample(ctxs, 2) if len(ctxs) > 1 else (ctxs[0], ctxs[0]); a["parent"] = b["name"]; b["parent"] = a["name"]; d = "parent cycle"
@@ -62,6 +62,20 @@ def structured(rng, f):
     elif k == 25 and ctxs:
         c = rng.choice(ctxs); c["parent"] = c["name"]
         list(f.values())[0][0].setdefault("contexts", []).insert(0, {"name": "tail2", "parent": c["name"]}); d = "self parent with a tail context"
+    elif k == 26 and mods:
+        # a custom build without outputs / with an empty output list, in a module every app depends on
+        m = {"name": "nooutmod", "build": dict({"cmd": ["gen"]}, **rng.choice([{}, {"out": []}]))}
+        d0 = list(f.values())[0][0]; d0.setdefault("modules", [])
+        if d0["modules"] is None: d0["modules"] = []
+        d0["modules"].append(m)
+        for a in [x for ds in f.values() for dd in ds for x in (dd.get("apps") or [])]: a.setdefault("selects", []).append("nooutmod")
+        d = "custom build without out"
+    elif k == 27 and mods:
+        m = rng.choice(mods); m["download"] = rng.choice([{"git": {"url": "u", "commit": "c"}}, {"git": {"url": "u"}}, {"git": {"url": "u", "commit": "c"}, "patches": []}, {"laze": "x"}])
+        d = "download without rules / unsupported kind / empty patches"
+    elif k == 28 and mods:
+        m = rng.choice(mods); m["sources"] = rng.choice([[], [""], ["noext"], [".c"], ["a..c", "dir/"], [{"": ["x.c"]}], [{"g": []}]])
+        d = "odd source lists"
     else:
         m = (mods or [{}])[0]; m["provides"] = [bad]; m["conflicts"] = [bad]; d = "provides/conflicts %r" % bad
     return f, d
